@@ -36,9 +36,15 @@ def lname(n):
 
 
 class Tr:
+<<<<<<< HEAD
     def __init__(self, consts=None, funcs=None, int_names=(), target_map=None):
         self.consts = consts or {}      # python dotted name (or unparsed subscript, e.g. "self.orbit[5]") -> lean text
         self.target_map = target_map or {}  # unparsed subscript assignment target (e.g. "new[5]") -> python-level name
+=======
+    def __init__(self, consts=None, funcs=None, int_names=(), matmul=None):
+        self.matmul = matmul            # lean function standing for numpy's `@` (None: `@` is untranslatable)
+        self.consts = consts or {}      # python dotted name -> lean text
+>>>>>>> wk-C11
         self.funcs = dict(FUNCS)
         self.funcs.update(funcs or {})
         self.int_names = set(int_names)  # names that are Nat-typed (exponents etc.)
@@ -109,6 +115,8 @@ class Tr:
             b = self.expr(e.right)
             op = {ast.Add: "+", ast.Sub: "-", ast.Mult: "*", ast.Div: "/"}.get(type(e.op))
             if op is None:
+                if isinstance(e.op, ast.MatMult) and self.matmul:
+                    return f"({self.matmul} {a} {b})"
                 if isinstance(e.op, ast.Mod):
                     return f"(fmod {a} {b})"
                 if isinstance(e.op, ast.FloorDiv):
